@@ -16,14 +16,19 @@ The full-strength statement that stays open is therefore
 
     ∀ system, init, chain:  root(init) = (x, sol, sane) ∧ sol.success ∧ sane  →  genuine x        -- `success_implies_genuine`
 
-of which the theorems below prove the `sane` half (`sane_spec`: non-negative and within the elemental bounds), the
-consistency of that check with genuineness (`upper_bound_valid`, `genuine_state_is_sane`) and the correctness of every
-piece of chempy's own switching / bracketing logic.  "Residual zero ⇒ Q = K ∧ totals preserved" for the vector
-formulations is C07 (`Model/EqSys.lean`).
+of which the theorems below prove the exact-arithmetic core: `zero_residual_and_sane_is_genuine` (composition with C07:
+residual zero ∧ sane ⇒ non-negative ∧ Q = K ∧ totals preserved), `precipitate_dichotomy` (final state of the conditional
+iteration: solid present ∧ Ksp met, or absent ∧ ion product ≤ Ksp(1+rtol)), `sane_spec`, the consistency of the sanity check
+with genuineness (`upper_bound_valid`, `genuine_state_is_sane`), and for the scalar solver: bracket = feasible set, residual
+strictly monotone on it, hence the bracketed root is the unique equilibrium (`scalar_root_is_equilibrium_and_unique`).
+What no theorem reaches (listed in `clauses_without_theorem` of the harness, sampled there): that a run reporting `success` has
+driven the residual to zero, convergence, the ≥ 19/20 rate, numerical agreement of `root` with `brentq`.
+Restatements of definitions (`fwCond_spec`, `bwCond_spec`, `default_rtols`, `equilibriumResidual_ok`) live in Proofs/EqSolve.lean.
 
 All theorems hold over an arbitrary linearly ordered field `α` (ℚ for the executable model, ℝ for "real" concentrations).
 -/
 import ChemModel.Proofs.EqSolve
+import ChemModel.Props.C07
 
 namespace ChemModel.C08
 open ChemModel.EqSolve
@@ -39,28 +44,6 @@ theorem sane_spec (rtol : α) (comps : List (Comp α)) (init x : List α) :
         (∀ i (hi : i < x.length), 0 ≤ x[i]) ∧
         (∀ i (hi : i < x.length) (b : α), ub[i]? = some (some b) → x[i] ≤ b * (1 + rtol)) :=
   resultIsSane_eq_ok_true_iff rtol comps init x
-
-/-- a strictly negative concentration — of any size — is never reported as sane -/
-theorem sane_rejects_any_negative (rtol : α) (comps : List (Comp α)) (init x : List α)
-    (i : Nat) (hi : i < x.length) (hneg : x[i] < 0) : resultIsSane rtol comps init x ≠ .ok true := by
-  intro h
-  obtain ⟨_, _, _, hnn, _⟩ := (sane_spec rtol comps init x).mp h
-  exact absurd (hnn i hi) (not_le.mpr hneg)
-
-/-- an entry above `bound·(1+rtol)` is never reported as sane -/
-theorem sane_rejects_excess (rtol : α) (comps : List (Comp α)) (init x : List α) (ub : List (Option α))
-    (hub : upperConcBounds comps init = .ok ub)
-    (i : Nat) (hi : i < x.length) (b : α) (hb : ub[i]? = some (some b)) (hex : b * (1 + rtol) < x[i]) :
-    resultIsSane rtol comps init x ≠ .ok true := by
-  intro h
-  obtain ⟨ub', hub', _, _, hle⟩ := (sane_spec rtol comps init x).mp h
-  rw [hub] at hub'
-  cases hub'
-  exact absurd (hle i hi b hb) (not_le.mpr hex)
-
-/-- the default tolerances in the source: `_result_is_sane(..., rtol=1e-9)`, `_fw_cond_factory(ri, rtol=1e-14)` -/
-theorem default_rtols : (saneRtolDefault : ℚ) = 1 / 10 ^ 9 ∧ (fwRtolDefault : ℚ) = 1 / 10 ^ 14 := by
-  constructor <;> decide +kernel
 
 /-- **upper_bound_valid.** The bound of `upper_conc_bounds` is a genuine bound: with non-negative composition coefficients
     (charge excluded) and strictly positive ones for substance `i`, no non-negative state `y` that carries the same
@@ -113,26 +96,73 @@ theorem precipitate_stoich_spec (phases : List Nat) (r : Rxn) (net : List Int) (
       ∀ j (hj : j < phases.length), j ≠ idx.toNat → phases[j] > 0 → r.net j = 0 :=
   (precipitateStoich_spec phases r net s idx h).2 hs
 
-/-- **switch_conditions_spec (forward).** `fw_cond(x)` looks at the fully dissolved state `d = dissolved(x)` and at
-    `q = ∏ dᵢ^νᵢ` over the species of phase 0 (the ion quotient):
-    solid on the product side (`s > 0`, `K = 1/Ksp`): "solid present" ⇔ `q·(1+rtol) < K`;
-    solid on the reactant side (`s < 0`, `K = Ksp`):  "solid present" ⇔ `K·(1+rtol) < q`.
-    In both readings: the solid is switched on exactly when the fully dissolved solution would be super-saturated by more
-    than `rtol`. -/
-theorem switch_conditions_spec (rtol : α) (phases : List Nat) (rxns : List Rxn) (r : Rxn) (k : α) (x : List α) (b : Bool)
-    (h : fwCond rtol phases rxns r k x = .ok b) :
-    ∃ net s idx d q, precipitateStoich phases r = .ok (net, s, idx) ∧ dissolved phases rxns x = .ok d ∧
-      rxnQ phases r d = .ok q ∧ q = quotient d (nonPrecipitateStoich phases r) ∧
-      ((0 < s ∧ (b = true ↔ q * (1 + rtol) < k)) ∨ (s < 0 ∧ (b = true ↔ k * (1 + rtol) < q))) := by
-  obtain ⟨net, s, idx, d, q, h1, h2, h3, h4⟩ := fwCond_spec rtol phases rxns r k x b h
-  exact ⟨net, s, idx, d, q, h1, h2, h3, eqQuotient_ok _ _ _ h3, h4⟩
-
-/-- **switch_conditions_spec (backward).** Once on, the solid stays on exactly while its amount is `≥ small`. -/
-theorem backward_condition_spec (small : α) (phases : List Nat) (r : Rxn) (x : List α) (b : Bool)
-    (h : bwCond small phases r x = .ok b) :
+/-- **precipitate_dichotomy** (the property's clause "either the solid is present and its solubility product is met or it is
+    absent and the ion product does not exceed it", for the final state of `ConditionalNeqSys`).
+    `x` is a state at which the iteration stops: the condition flag `on` of the phase-transfer reaction `r` reproduces itself
+    (`bw_cond(x) = on` if it was on, `fw_cond(x) = on` if it was off — `get_conds`), and the residual rows of the system chosen
+    by that flag vanish.  By C07 (`lin_zero_iff_general`, rows of `_get_A_ks`) the latter means: flag on → `Q` over the dissolved
+    species equals `K` (`hon`); flag off, `small = 0` → every switched-off solid is `0` (`hoff`; single-salt systems: the one solid).
+    Then, with `q = ∏ xᵢ^νᵢ` over the species of phase 0:
+    * on:  the solid amount is `≥ small` (`> 0` for `NumSysLog`/`Square`, where `small > 0`) and `q = K` (ion product = Ksp);
+    * off: the solid amount is `0` and the ion product does not exceed `Ksp·(1+rtol)`:
+      solid on the reactant side (`s < 0`, `K = Ksp`, `q` = ion product): `q ≤ K(1+rtol)`;
+      solid on the product side (`s > 0`, `K = 1/Ksp`, `q` = 1/ion product): `K ≤ q(1+rtol)`, i.e. `1/q ≤ (1/K)(1+rtol)`.
+    Proof: composition of `fwCond_spec` / `bwCond_spec` (what the two callbacks test) with `dissolved_of_solids_zero`
+    (with no solid present `fw_cond` looks at `x` itself). -/
+theorem precipitate_dichotomy (rtol small : α) (phases : List Nat) (rxns : List Rxn) (r : Rxn) (hr : r ∈ rxns)
+    (hpt : hasPrecipitates phases r = .ok true) (k : α) (x : List α) (on : Bool)
+    (hstable : (if on then bwCond small phases r x else fwCond rtol phases rxns r k x) = .ok on)
+    (hon : on = true → ∃ q, rxnQ phases r x = .ok q ∧ q = k)
+    (hoff : on = false → ∀ r' ∈ rxns, hasPrecipitates phases r' = .ok true →
+      ∀ net s idx, precipitateStoich phases r' = .ok (net, s, idx) → pyIndex x idx = some 0) :
     ∃ net s idx xi, precipitateStoich phases r = .ok (net, s, idx) ∧ pyIndex x idx = some xi ∧
-      (b = true ↔ small ≤ xi) :=
-  bwCond_spec small phases r x b h
+      ((on = true ∧ small ≤ xi ∧ quotient x (nonPrecipitateStoich phases r) = k) ∨
+       (on = false ∧ xi = 0 ∧
+         ((s < 0 ∧ quotient x (nonPrecipitateStoich phases r) ≤ k * (1 + rtol)) ∨
+          (0 < s ∧ k ≤ quotient x (nonPrecipitateStoich phases r) * (1 + rtol) ∧
+            (0 < k → 0 < quotient x (nonPrecipitateStoich phases r) →
+              (quotient x (nonPrecipitateStoich phases r))⁻¹ ≤ k⁻¹ * (1 + rtol)))))) := by
+  cases on with
+  | true =>
+    simp only [↓reduceIte] at hstable
+    obtain ⟨net, s, idx, xi, hps, hxi, hiff⟩ := bwCond_spec small phases r x true hstable
+    obtain ⟨q, hq, hqk⟩ := hon rfl
+    refine ⟨net, s, idx, xi, hps, hxi, Or.inl ⟨rfl, hiff.mp rfl, ?_⟩⟩
+    rw [← eqQuotient_ok _ _ _ hq]; exact hqk
+  | false =>
+    simp only [Bool.false_eq_true, ↓reduceIte] at hstable
+    obtain ⟨net, s, idx, d, q, hps, hd, hq, hcases⟩ := fwCond_spec rtol phases rxns r k x false hstable
+    have hdx : d = x := dissolved_of_solids_zero phases x rxns d hd (hoff rfl)
+    subst hdx
+    have hqq := eqQuotient_ok _ _ _ hq
+    have hxi := hoff rfl r hr hpt net s idx hps
+    refine ⟨net, s, idx, 0, hps, hxi, Or.inr ⟨rfl, rfl, ?_⟩⟩
+    rcases hcases with ⟨hs, hiff⟩ | ⟨hs, hiff⟩
+    · have hnot : ¬ q * (1 + rtol) < k := fun hlt => Bool.false_ne_true (hiff.mpr hlt)
+      have hle : k ≤ q * (1 + rtol) := not_lt.mp hnot
+      refine Or.inr ⟨hs, by rw [← hqq]; exact hle, fun hk hqpos => ?_⟩
+      rw [← hqq] at hqpos ⊢
+      have hq' : q ≠ 0 := hqpos.ne'
+      have hk' : k ≠ 0 := hk.ne'
+      have h1 : q⁻¹ * k ≤ 1 + rtol := by
+        have := mul_le_mul_of_nonneg_left hle (inv_pos.mpr hqpos).le
+        rwa [← mul_assoc, inv_mul_cancel₀ hq', one_mul] at this
+      have h2 := mul_le_mul_of_nonneg_right h1 (inv_pos.mpr hk).le
+      rwa [mul_assoc, mul_inv_cancel₀ hk', mul_one, mul_comm (1 + rtol)] at h2
+    · have hnot : ¬ k * (1 + rtol) < q := fun hlt => Bool.false_ne_true (hiff.mpr hlt)
+      exact Or.inl ⟨hs, by rw [← hqq]; exact not_lt.mp hnot⟩
+
+omit [Field α] [IsStrictOrderedRing α] in
+/-- success characterisation of the hypothesis `bwCond … = .ok on` above: on a reaction with a single solid the backward
+    callback is defined and equals `small ≤ x[solid]` -/
+theorem backward_condition_defined (small : α) (phases : List Nat) (r : Rxn) (x : List α) (net : List Int) (s idx : Int) (xi : α)
+    (hps : precipitateStoich phases r = .ok (net, s, idx)) (hxi : pyIndex x idx = some xi) :
+    bwCond small phases r x = .ok (decide (small ≤ xi)) := by
+  unfold bwCond
+  simp only [hps, bind, Except.bind, hxi, pure, Except.pure, Except.ok.injEq]
+  by_cases h : xi < small
+  · simp [h, not_le.mpr h]
+  · simp [h, not_lt.mp h]
 
 /-- `non_precip_rids(precipitates)`: the phase-transfer reactions whose flag (by position) is `False` -/
 theorem non_precip_rids_spec (phases : List Nat) (rxns : List Rxn) (precipitates : List Bool) (out : List Nat)
@@ -228,24 +258,51 @@ theorem rc_interval_zero_conc_defect_witness :
     extentState (α := ℚ) [1, 0, 0, 1 / 2] [-1, 1, 1, 1] (-1 / 4) = [5 / 4, -1 / 4, -1 / 4, 1 / 4] := by
   constructor <;> decide +kernel
 
-/-- **residual_zero_iff_Q_eq_K.** The function handed to `brentq` is `K − Q(c0 + ν·rc)` with `Q = ∏ cᵢ^νᵢ`; it vanishes exactly
-    when the state reached along the reaction coordinate satisfies `Q = K`. -/
-theorem residual_zero_iff_Q_eq_K (rc : α) (c0 : List α) (stoich : List Int) (K v : α)
-    (h : equilibriumResidual rc c0 stoich K = .ok v) :
-    v = K - quotient (extentState c0 stoich rc) stoich ∧
-    (v = 0 ↔ quotient (extentState c0 stoich rc) stoich = K) := by
-  unfold equilibriumResidual at h
-  split_ifs at h with hl
-  simp only [bind, Except.bind] at h
-  split at h
-  · cases h
-  · rename_i q hq
-    simp only [pure, Except.pure, Except.ok.injEq] at h
-    have hq' := eqQuotient_ok _ _ _ hq
-    subst hq'
-    refine ⟨h.symm, ?_⟩
-    rw [← h, sub_eq_zero]
-    exact eq_comm
+/-- success characterisation: for strictly positive concentrations of a non-empty reaction without zero coefficients (what
+    `_solve_equilibrium_coord` passes after masking) `_get_rc_interval` returns a bracket, and the residual is defined at every
+    coordinate strictly inside it -/
+theorem rc_interval_defined (stoich : List Int) (c0 : List α) (hlen : stoich.length = c0.length)
+    (hne : stoich ≠ []) (hnz : ∀ n ∈ stoich, n ≠ 0) (hpos : ∀ v ∈ c0, 0 < v) :
+    ∃ lo up, getRcInterval stoich c0 = .ok (lo, up) ∧
+      ∀ rc K, lo < rc → rc < up → ∃ v, equilibriumResidual rc c0 stoich K = .ok v := by
+  obtain ⟨lo, up, h⟩ := getRcInterval_defined stoich c0 hlen hne hnz hpos
+  refine ⟨lo, up, h, fun rc K hlo hup => ?_⟩
+  exact equilibriumResidual_defined rc c0 stoich K hlen.symm
+    (fun v hv => (extentState_pos_of_interior stoich c0 lo up h hpos rc hlo hup v hv).ne')
+
+/-- **the scalar residual is strictly decreasing on the bracket** (strictly positive `c0`): `K − ∏(c0ᵢ+νᵢ rc)^νᵢ` at two
+    coordinates `rc₁ < rc₂` strictly inside the bracket.  (`brentq` gets exactly these lists: species with `ν = 0` are masked.) -/
+theorem residual_strictly_decreasing_on_bracket (stoich : List Int) (c0 : List α) (lo up K : α)
+    (h : getRcInterval stoich c0 = .ok (lo, up)) (hne : stoich ≠ []) (hpos : ∀ v ∈ c0, 0 < v)
+    (r1 r2 v1 v2 : α) (hlo : lo < r1) (h12 : r1 < r2) (hup : r2 < up)
+    (h1 : equilibriumResidual r1 c0 stoich K = .ok v1) (h2 : equilibriumResidual r2 c0 stoich K = .ok v2) :
+    v2 < v1 := by
+  obtain ⟨hlen, hnz, _⟩ := getRcInterval_spec stoich c0 lo up h
+  obtain ⟨_, e1⟩ := equilibriumResidual_ok r1 c0 stoich K v1 h1
+  obtain ⟨_, e2⟩ := equilibriumResidual_ok r2 c0 stoich K v2 h2
+  have hnz' : ∀ n ∈ stoich, n ≠ 0 := by
+    intro n hn
+    obtain ⟨j, hj, rfl⟩ := List.getElem_of_mem hn
+    exact hnz j hj
+  have := (quotient_extent_mono r1 r2 h12 c0 stoich hlen.symm hnz'
+    (extentState_pos_of_interior stoich c0 lo up h hpos r1 hlo (lt_trans h12 hup))
+    (extentState_pos_of_interior stoich c0 lo up h hpos r2 (lt_trans hlo h12) hup)).2.2 hne
+  rw [e1, e2]; linarith
+
+/-- **the bracketed root is an equilibrium state and it is the only one**: a zero of the residual inside the bracket satisfies
+    `Q = K` with all concentrations positive, and two zeros inside the bracket coincide — so whatever `brentq` converges to
+    (and any other solver's positive answer along the same reaction coordinate) is *the* equilibrium composition. -/
+theorem scalar_root_is_equilibrium_and_unique (stoich : List Int) (c0 : List α) (lo up K : α)
+    (h : getRcInterval stoich c0 = .ok (lo, up)) (hne : stoich ≠ []) (hpos : ∀ v ∈ c0, 0 < v)
+    (r1 : α) (hlo1 : lo < r1) (hup1 : r1 < up) (h1 : equilibriumResidual r1 c0 stoich K = .ok 0) :
+    quotient (extentState c0 stoich r1) stoich = K ∧ (∀ v ∈ extentState c0 stoich r1, 0 < v) ∧
+    ∀ r2, lo < r2 → r2 < up → equilibriumResidual r2 c0 stoich K = .ok 0 → r2 = r1 := by
+  obtain ⟨_, e1⟩ := equilibriumResidual_ok r1 c0 stoich K 0 h1
+  refine ⟨by linarith, extentState_pos_of_interior stoich c0 lo up h hpos r1 hlo1 hup1, fun r2 hlo2 hup2 h2 => ?_⟩
+  rcases lt_trichotomy r2 r1 with hlt | heq | hgt
+  · exact absurd (residual_strictly_decreasing_on_bracket stoich c0 lo up K h hne hpos r2 r1 0 0 hlo2 hlt hup1 h2 h1) (lt_irrefl 0)
+  · exact heq
+  · exact absurd (residual_strictly_decreasing_on_bracket stoich c0 lo up K h hne hpos r1 r2 0 0 hlo1 hgt hup2 h1 h2) (lt_irrefl 0)
 
 /-- what `solve_equilibrium` returns, `c0 + rc·ν`, carries the element totals and the charge of `c0` whenever the reaction is
     balanced (`b·ν = 0` for the balance row `b`) — for every `rc`, converged or not. -/
@@ -253,6 +310,44 @@ theorem extent_preserves_totals (rc : α) (b c0 : List α) (stoich : List Int) (
     (hb : dot b (stoich.map fun n => ((n : Int) : α)) = 0) :
     dot b (extentState c0 stoich rc) = dot b c0 := by
   rw [dot_extent rc b c0 stoich hl, hb]; ring
+
+/-! ### composition with C07: the exact-arithmetic core of "success ∧ sane ⇒ genuine" -/
+
+/-- the composition dicts of a C07 system in the representation `upper_conc_bounds` is modelled with -/
+def compsOf (s : EqSys.EqSystem) : List (Comp ℝ) :=
+  s.substances.map fun kv => kv.2.comp.map fun p => (p.1, ((p.2 : Int) : ℝ))
+
+/-- **zero_residual_and_sane_is_genuine.**  Homogeneous system `s`, parameters `p = c₀ ++ K`.  If the residual vector of the
+    formulation the chain ends with vanishes at the returned state `c` — `NumSysLin.f(c, p) = 0`, or `NumSysLog.f(y, p) = 0` with
+    `c = exp y` and positive constants — and `_result_is_sane(c₀, c)` holds, then `c` is a genuine equilibrium composition:
+    every concentration is non-negative, `Q_i(c) = K_i` for every reaction as written, and every element total and the charge
+    equal those of `c₀`.  (What remains outside any theorem is that a run reporting `success` has actually driven the residual to
+    zero — see `clauses_without_theorem`; the finding `lm-nonroot-reported-as-success` shows that it can fail.) -/
+theorem zero_residual_and_sane_is_genuine (s : EqSys.EqSystem) (hs : EqSys.Homogeneous s) (prec : List Bool)
+    (small rtol : ℝ) (c y p r : List ℝ)
+    (hres : EqSys.numSysLinF s prec small c p = .ok r ∨
+      (EqSys.numSysLogF s prec small y p = .ok r ∧ c = y.map Real.exp ∧ ∀ k ∈ EqSys.eqParamsOf s p, 0 < k))
+    (hzero : ∀ v ∈ r, v = 0)
+    (hsane : resultIsSane rtol (compsOf s) (EqSys.initConcsOf s p) c = .ok true) :
+    (∀ i (hi : i < c.length), 0 ≤ c[i]) ∧
+    (∀ νK ∈ (EqSys.netStoichs s).zip (EqSys.eqParamsOf s p), EqSys.quotient c νK.1 = νK.2) ∧
+    (∀ b ∈ EqSys.compMat s, EqSys.total b c = EqSys.total b (EqSys.initConcsOf s p)) := by
+  obtain ⟨_, _, _, hnn, _⟩ := (sane_spec rtol (compsOf s) (EqSys.initConcsOf s p) c).mp hsane
+  refine ⟨hnn, ?_⟩
+  rcases hres with hlin | ⟨hlog, hc, hK⟩
+  · exact (ChemModel.C07.lin_zero_iff s hs prec small c p r hlin).mp hzero
+  · have hpos : ∀ x ∈ c, 0 < x := by
+      intro x hx
+      rw [hc] at hx
+      obtain ⟨t, _, rfl⟩ := List.mem_map.mp hx
+      exact Real.exp_pos t
+    have hlogc : c.map Real.log = y := by
+      rw [hc, List.map_map]
+      conv_rhs => rw [← List.map_id y]
+      apply List.map_congr_left
+      intro t _
+      simp
+    exact (ChemModel.C07.log_zero_iff s hs prec small c p r hpos hK (by rw [hlogc]; exact hlog)).mp hzero
 
 /-! ### non-vacuity: concrete instances on which the hypotheses hold -/
 
@@ -263,6 +358,17 @@ example : dissolved (α := ℚ) [0, 0, 1] [⟨[(2, 1)], [(0, 1), (1, 1)], [], []
 /-- forward condition on that state with Ksp = 4: ion product 30 > 4 ⇒ solid present -/
 example : fwCond (α := ℚ) fwRtolDefault [0, 0, 1] [⟨[(2, 1)], [(0, 1), (1, 1)], [], []⟩]
     ⟨[(2, 1)], [(0, 1), (1, 1)], [], []⟩ 4 [1, 2, 4] = .ok true := by decide +kernel
+
+/-- the hypotheses of `precipitate_dichotomy` are satisfiable — solid present: (Na⁺, Cl⁻, NaCl(s)) = (2, 2, 1), Ksp = 4 -/
+example : bwCond (α := ℚ) 0 [0, 0, 1] ⟨[(2, 1)], [(0, 1), (1, 1)], [], []⟩ [2, 2, 1] = .ok true ∧
+    rxnQ (α := ℚ) [0, 0, 1] ⟨[(2, 1)], [(0, 1), (1, 1)], [], []⟩ [2, 2, 1] = .ok 4 := by
+  constructor <;> decide +kernel
+
+/-- … and solid absent: (1, 2, 0) is under-saturated (ion product 2 ≤ 4), `fw_cond` stays off, `dissolved` leaves it alone -/
+example : fwCond (α := ℚ) fwRtolDefault [0, 0, 1] [⟨[(2, 1)], [(0, 1), (1, 1)], [], []⟩]
+    ⟨[(2, 1)], [(0, 1), (1, 1)], [], []⟩ 4 [1, 2, 0] = .ok false ∧
+    dissolved (α := ℚ) [0, 0, 1] [⟨[(2, 1)], [(0, 1), (1, 1)], [], []⟩] [1, 2, 0] = .ok [1, 2, 0] := by
+  constructor <;> decide +kernel
 
 /-- water / H⁺ / OH⁻: bounds (H: 2·1 + 1/2 = 5/2, O: 1) and a sane / an insane vector -/
 example : upperConcBounds (α := ℚ) [[(1, 2), (8, 1)], [(0, 1), (1, 1)], [(0, -1), (1, 1), (8, 1)]] [1, 1 / 2, 0]
